@@ -119,3 +119,92 @@ Proof.
     try (match goal with H : assemble ?v = Ok _ |- _ => apply (assemble_in53_n (gsize v) v _ (le_n _) H) end).
   exfalso. eapply Hn. reflexivity.
 Qed.
+
+(* ---------- the checker the args engine uses accepts every node that denotes the value ---------- *)
+From Coq Require Import Permutation.
+
+Fixpoint gkeys_distinct (v : gval) : Prop :=
+  match v with
+  | GSlice l | GArray l => (fix all (l : list gval) : Prop := match l with [] => True | x :: r => gkeys_distinct x /\ all r end) l
+  | GMap m => NoDup (map fst m) /\
+              (fix all (m : list (str * gval)) : Prop := match m with [] => True | kv :: r => gkeys_distinct (snd kv) /\ all r end) m
+  | GPtr x => gkeys_distinct x
+  | _ => True
+  end.
+
+Lemma ins_key_perm' {V} (e : str * V) l : Permutation (ins_key e l) (e :: l).
+Proof. induction l as [|x r IH]; cbn; [reflexivity|]. destruct (str_ltb (fst e) (fst x)); [reflexivity|]. rewrite IH. apply perm_swap. Qed.
+Lemma sort_keys_perm {V} (l : list (str * V)) : Permutation (sort_keys l) l.
+Proof. unfold sort_keys. induction l as [|x r IH]; cbn [fold_right]; [reflexivity|]. rewrite ins_key_perm'. constructor. exact IH. Qed.
+
+Lemma map_get_in_nodup k (v : node) m : NoDup (map fst m) -> In (k, v) m -> map_get k m = Some v.
+Proof.
+  induction m as [|[k0 v0] m IH]; intros Hn Hin; [contradiction|]. cbn [map_get]. inversion Hn as [|? ? Hni Hn']; subst.
+  destruct Hin as [E|Hin].
+  - injection E as -> ->. rewrite str_eqb_refl. reflexivity.
+  - destruct (str_eqb_spec k k0) as [->|Hne]; [exfalso; apply Hni; apply in_map_iff; exists (k0, v); auto | apply IH; assumption].
+Qed.
+
+Lemma Forall2_len {A B} (P : A -> B -> Prop) l l' : Forall2 P l l' -> length l = length l'.
+Proof. induction 1; cbn; congruence. Qed.
+
+Lemma node_eqb_refl' : forall n, node_eqb n n = true.
+Proof.
+  induction n as [| b | z | bits | s | s | l IH | m IH | c] using node_ind'; cbn [node_eqb]; try reflexivity.
+  - apply Bool.eqb_reflx.
+  - apply Z.eqb_refl.
+  - apply N.eqb_refl.
+  - apply str_eqb_refl.
+  - apply str_eqb_refl.
+  - induction IH as [|x r Hx _ IHr]; [reflexivity|]. rewrite Hx. exact IHr.
+  - induction IH as [|[k x] r Hx _ IHr]; [reflexivity|]. cbn [snd] in Hx. rewrite str_eqb_refl, Hx. exact IHr.
+  - apply str_eqb_refl.
+Qed.
+
+Lemma denotesb_complete : forall f v n, (gsize v <= f)%nat -> gkeys_distinct v -> denotes v n -> denotesb f v n = true.
+Proof.
+  induction f as [|f IH]; intros v n Hf Hk D; [destruct v; cbn in Hf; lia|].
+  destruct D as [b|s|z|u|x|c|l ns F|l ns F|m es F|x n D|b|n]; cbn [denotesb].
+  - apply Bool.eqb_reflx.
+  - apply str_eqb_refl.
+  - apply Z.eqb_refl.
+  - apply Z.eqb_refl.
+  - apply N.eqb_refl.
+  - apply str_eqb_refl.
+  - cbn [gsize] in Hf. assert (L : length l = length ns) by (eapply Forall2_len; exact F). rewrite L, Nat.eqb_refl. cbn [andb].
+    apply forallb_forall. intros [x y] Hin. cbn [fst snd].
+    assert (G : forall l ns, Forall2 denotes l ns -> In (x, y) (combine l ns) -> In x l /\ denotes x y).
+    { clear. induction 1 as [|a b l ns Hab _ IHl]; cbn; [tauto|]. intros [E|H]; [injection E as -> ->; auto | destruct (IHl H); auto]. }
+    destruct (G l ns F Hin) as [Hx Dx]. apply IH; [pose proof (gsize_in_list x l Hx); lia | | exact Dx].
+    clear -Hk Hx. cbn in Hk. induction l as [|a l IHl]; [contradiction|]. destruct Hk as [Ha Hl]. destruct Hx as [->|Hx]; auto.
+  - cbn [gsize] in Hf. assert (L : length l = length ns) by (eapply Forall2_len; exact F). rewrite L, Nat.eqb_refl. cbn [andb].
+    apply forallb_forall. intros [x y] Hin. cbn [fst snd].
+    assert (G : forall l ns, Forall2 denotes l ns -> In (x, y) (combine l ns) -> In x l /\ denotes x y).
+    { clear. induction 1 as [|a b l ns Hab _ IHl]; cbn; [tauto|]. intros [E|H]; [injection E as -> ->; auto | destruct (IHl H); auto]. }
+    destruct (G l ns F Hin) as [Hx Dx]. apply IH; [pose proof (gsize_in_list x l Hx); lia | | exact Dx].
+    clear -Hk Hx. cbn in Hk. induction l as [|a l IHl]; [contradiction|]. destruct Hk as [Ha Hl]. destruct Hx as [->|Hx]; auto.
+  - cbn [gsize] in Hf. cbn in Hk. destruct Hk as [Hn Hk].
+    assert (L : length m = length es) by (eapply Forall2_len; exact F).
+    assert (Ls : length (sort_keys es) = length es) by (apply Permutation_length, sort_keys_perm).
+    rewrite Ls, L, Nat.eqb_refl. cbn [andb].
+    assert (Keys : map fst m = map fst es).
+    { clear -F. induction F as [|kv kn m es [E _] _ IHF]; [reflexivity|]. cbn. rewrite E, IHF. reflexivity. }
+    assert (Hne : NoDup (map fst es)) by (rewrite <- Keys; exact Hn).
+    apply forallb_forall. intros kv Hin.
+    assert (G : exists kn, In kn es /\ fst kv = fst kn /\ denotes (snd kv) (snd kn)).
+    { clear -F Hin. induction F as [|a b m es [E Dab] _ IHF]; [contradiction|]. destruct Hin as [->|Hin]; [exists b; cbn; auto | destruct (IHF Hin) as (kn & ? & ? & ?); exists kn; cbn; auto]. }
+    destruct G as ([k' x'] & Hkn & Ek & Dx). cbn [fst snd] in *. subst k'.
+    assert (MG : map_get (fst kv) (sort_keys es) = Some x').
+    { apply map_get_in_nodup.
+      - eapply Permutation_NoDup; [apply Permutation_map, Permutation_sym, sort_keys_perm | exact Hne].
+      - eapply Permutation_in; [apply Permutation_sym, sort_keys_perm | exact Hkn]. }
+    rewrite MG. apply IH; [pose proof (gsize_in_map kv m Hin); lia | | exact Dx].
+    clear -Hk Hin. induction m as [|a m IHm]; [contradiction|]. destruct Hk as [Ha Hm]. destruct Hin as [->|Hin]; auto.
+  - cbn [gsize] in Hf. cbn in Hk. apply IH; [lia | exact Hk | exact D].
+  - apply str_eqb_refl.
+  - apply node_eqb_refl'.
+Qed.
+
+(* no false alarm from the checker: whatever denotes the value is accepted *)
+Theorem checker_accepts_every_exact_node v n : gkeys_distinct v -> denotes v n -> denotesb (gsize v) v n = true.
+Proof. intros Hk D. apply denotesb_complete; [lia | exact Hk | exact D]. Qed.
